@@ -74,6 +74,7 @@ def _programs(seed: int, tier: str) -> dict[str, list[tuple]]:
     a = [(pre, st, post) for st in list(l0) + list(l1)]
     # (B) unicode whitespace around four small programs
     smalls = [
+        ("case", ("var", n.g, ()), (), None),  # a case tag without when or else: its two tags are adjacent
         ("out", ("var", n.g, ())),
         ("if", ((("var", n.g, ()), (("text", " y "),)),), None),
         ("comment", "hash", " c "),
@@ -111,6 +112,13 @@ def _programs(seed: int, tier: str) -> dict[str, list[tuple]]:
     for x in nested:
         for pre_, post_ in itertools.product(edge_texts, repeat=2):
             c.append(tuple(st for st in (pre_, x, post_) if st is not None))
+    # text around a `{#` that does not start a comment (nothing after it closes one) is still one piece of text
+    a += [(("text", t_), ("out", ("var", n.g, ())), ("text", " {# z")) for t_ in ("a {# b ", " {# \n")]
+    for x in (("comment", "inline", " c "), ("comment", "block", " c "), ("raw", " r "), ("assign", n.a, ("int", 1))):
+        for t_ in ("a {# b ", " {# \n", "a {## b\n"):
+            c.append((("text", t_), x, ("text", " z")))
+            c.append((x, ("text", t_)))
+    c.append((("text", " a {# b "),))
     # (D) nests whose inner block mixes blank and non-blank branches (blank-block suppression must look at all of them)
     dd = [(("text", "A\n"), st, ("text", "\nZ")) for st in grammar.mixed_blank_nests(seed, tier == "quick")]
     # (E) branches whose text is blank but which DO something (assign / capture / increment / cycle): suppressing the
@@ -280,6 +288,27 @@ def check_program(name: str, prog: tuple, k: int, res: ShardResult | None, only:
                         by_default, explicit = ("ok", by_default[1].strip()), ("ok", explicit[1].strip())
                     if by_default != explicit:
                         out.append((f"C18:default-trim-differs-from-explicit-markers:{cons}", {"markers": [x] * k, "trim": x, "suppress": sup, "data_index": di}, {"explicit_markers_everywhere": explicit}, {"default_trim": by_default, "source": plain_src}))
+        # locality: one marker trims only the text next to its own markup. With a single `-` anywhere but on the outer
+        # edge of the first (last) markup, the literal text before (after) the construct is reproduced untouched
+        if k and base[0] == "ok" and prog[0][0] == "text" and prog[-1][0] == "text" and len(prog) >= 3 and di == 0:
+            P, Q = prog[0][1], prog[-1][1]
+            if base[1].startswith(P) and base[1].endswith(Q):
+                for i in range(k):
+                    for mk in ("-", "~"):
+                        marks1 = tuple(mk if j == i else "" for j in range(k))
+                        o = _render(envs[("+", False)], print_program(prog, Layout(markers=marks1)), d)
+                        if res is not None:
+                            res.evaluations += 1
+                        if o[0] != "ok":
+                            continue
+                        extra = {"markers": list(marks1), "trim": "+", "suppress": False, "data_index": di}
+                        mid = base[1][len(P) : len(base[1]) - len(Q)]
+                        if mk == "-" and k >= 2 and i in (0, k - 1):
+                            want_o = (P.rstrip() + mid + Q) if i == 0 else (P + mid + Q.lstrip())
+                            if o[1] != want_o:
+                                out.append((f"C18:outer-marker-trims-other-than-the-adjacent-text:{'before' if i == 0 else 'after'}:{cons}", extra, {"unmarked": base[1], "expected": want_o}, {"render": o[1]}))
+                        elif 0 < i < k - 1 and not (o[1].startswith(P) and o[1].endswith(Q) and len(o[1]) >= len(P) + len(Q)):
+                            out.append((f"C18:inner-marker-trims-text-outside-its-construct:{cons}", extra, {"unmarked": base[1]}, {"render": o[1]}))
         for marks in _assignments(k, name):
             if only is not None and tuple(only) != marks:
                 continue
